@@ -113,17 +113,20 @@ def empty(
     grid = Grid.from_shape((shape.height, shape.width))
     draw_wall_boundary(grid)
 
-    exit_y: int
-    exit_x: int
+    exit_position: Position
 
     if random_exit:
-        exit_y = rng.integers(1, shape.height - 2, endpoint=True)
-        exit_x = rng.integers(1, shape.width - 2, endpoint=True)
+        # the exit must not land on the fixed agent cell
+        exit_positions = [
+            position
+            for position in grid.area.positions('inside')
+            if random_agent or position != Position(1, 1)
+        ]
+        exit_position = choice(rng, exit_positions)
     else:
-        exit_y = shape.height - 2
-        exit_x = shape.width - 2
+        exit_position = Position(shape.height - 2, shape.width - 2)
 
-    grid[exit_y, exit_x] = Exit()
+    grid[exit_position] = Exit()
 
     if random_agent:
         positions = [
